@@ -224,3 +224,32 @@ def break_in_loop(a: int) -> int:
             break
         a -= 1
     return a
+
+
+class Sized:
+    def __len__(self) -> int:
+        return 0
+
+
+def maybe_sized(a: int) -> Sized | None:
+    return None
+
+
+def truthiness_of_sized(a: int) -> int:
+    if (x := maybe_sized(a)):
+        return 1
+    return 0
+
+
+def hoist_after_call(a: int, b: int) -> int:
+    return _two(_raiser(a), b if b > 0 else _raiser(b))
+
+
+def _two(x: int, y: int) -> int:
+    return x + y
+
+
+def raise_unknown_call_argument(a: int) -> int:
+    if a > 5:
+        raise ValueError(hash(a))
+    return a
